@@ -403,6 +403,9 @@ def emit_classes(rows):
     nonc = [r for r in rows if r["kind"] != "code"]
     L.append("def nonCodeClassNames : List (Nat × String) := [" + ", ".join(f"({r['idx']}, {lean_str(r['name'])})" for r in nonc) + "]")
     L.append(f"def numClasses : Nat := {len(rows)}")
+    byname = {r["name"]: r["idx"] for r in rows}
+    for lean_name, py_name in (("wsCls", "vsg.parser.whitespace"), ("crCls", "vsg.parser.carriage_return"), ("blankCls", "vsg.parser.blank_line"), ("commentCls", "vsg.parser.comment")):
+        L.append(f"def {lean_name} : Nat := {byname.get(py_name, len(rows))}")
     L.append("end Vsgm.Gen")
     return "\n".join(L) + "\n"
 
